@@ -16,6 +16,9 @@ def chomp_spec(format_spec, word):
 
 
 def escape_dunders(text):
+    if not isinstance(text, str):
+        # e.g. the name of a call whose function is not a name: None
+        return str(text)
     if text[:2] == '__' and text[-2:] == '__':
         return "\\_\\_" + text[2:-2] + "\\_\\_"
     return text
